@@ -218,7 +218,7 @@ def run_event(ws, e):
     pick = pickle.dumps((e["fn"], e["param"], args))
     buf = io.StringIO()
     with redirect_stdout(buf):
-        r = impl.call(lambda: invoke(e["fn"], e["param"], args, e["verbose"]), _alarm=60)
+        r = impl.call(lambda: invoke(e["fn"], e["param"], args, e["verbose"]), _alarm=60, _budget=6000)   # a graph thinned by arc removal may make encode loop: end it by ticks, not by the clock
     res = ("ok:" + digest(r["value"])) if r["out"] == "ok" else ("exc:" + (r.get("type") or r["out"]))
     after = [digest(ws[s]) for s in SLOTS]
     if r["out"] == "ok":
@@ -260,7 +260,7 @@ FRESH_SNIPPET = ("import sys, pickle, io, os\n"
                  "fn, param, args = pickle.load(open(sys.argv[1], 'rb'))\n"
                  "buf = io.StringIO()\n"
                  "with redirect_stdout(buf):\n"
-                 "    r = impl.call(lambda: c20.invoke(fn, param, args, False), _alarm=60)\n"
+                 "    r = impl.call(lambda: c20.invoke(fn, param, args, False), _alarm=60, _budget=6000)\n"
                  "res = ('ok:' + c20.digest(r['value'])) if r['out'] == 'ok' else ('exc:' + (r.get('type') or r['out']))\n"
                  "sys.stdout.write(res)\n")
 
